@@ -667,6 +667,11 @@ func (e *Env) term(v ssa.Value) *Term {
 	case *ssa.UnOp:
 		switch x.Op {
 		case token.MUL:
+			if fv, ok := x.X.(*ssa.FreeVar); ok && e.Subst[fv] == nil {
+				if t := e.captured(fv); t != nil {
+					return t
+				}
+			}
 			return e.load(x.X, x, x.Type())
 		case token.NOT:
 			return &Term{Op: "not", Args: []*Term{e.Term(x.X)}}
@@ -1221,4 +1226,30 @@ func (t *Term) Subst(f func(*Term) *Term) *Term {
 // LoadValue returns the value stored in a local (or heap-allocated literal) as seen at instruction `at`.
 func (e *Env) LoadValue(a *ssa.Alloc, at ssa.Instruction) *Term {
 	return e.load(a, at, a.Type().Underlying().(*types.Pointer).Elem())
+}
+
+// captured evaluates a variable captured by reference that has exactly one store
+// (and is never written by a closure) in the frame of the enclosing function.
+func (e *Env) captured(fv *ssa.FreeVar) *Term {
+	if e.Depth > 3 {
+		return nil
+	}
+	b := e.Prog.Binding(fv)
+	al, ok := b.(*ssa.Alloc)
+	if !ok || writtenByClosure(al) {
+		return nil
+	}
+	st := singleStore(al)
+	if st == nil || st.Parent() != al.Parent() {
+		return nil
+	}
+	paths, _ := EnumPaths(st.Parent(), st.Block(), 50)
+	for _, pa := range paths {
+		pe := &Env{Prog: e.Prog, Path: pa, Inline: e.Inline, Depth: e.Depth + 1, memo: map[ssa.Value]*Term{}, prefix: e.prefix + "^"}
+		if !Feasible(pe.Atoms()) {
+			continue
+		}
+		return pe.Term(st.Val)
+	}
+	return nil
 }
